@@ -94,8 +94,12 @@ def main():
             elif a.mode == "check":
                 r["verdicts"] = {}
                 for c in checks:
-                    rc, out = sh("./check %s --tier quick 2>&1" % c, cwd=verif, env=env)
-                    v, d = classify(out)
+                    # REWRITES_PREFIX: e.g. "taskset -c 8-11".  A failure that names neither a lemma nor a translator refusal nor a
+                    # case is environmental (coqc killed under memory pressure, a timeout): the run is repeated, at most twice
+                    for attempt in range(3):
+                        rc, out = sh("%s ./check %s --tier quick 2>&1" % (os.environ.get("REWRITES_PREFIX", ""), c), cwd=verif, env=env)
+                        v, d = classify(out)
+                        if v == "silent" or "Lemma" in d or "source translator" in d or "correspondence" in d or v == "FAILING-INPUT": break
                     if rc == 0 and v != "silent": v = "silent(rc0?)"
                     if rc != 0 and v == "silent": v, d = "ERROR", out[-800:]
                     r["verdicts"][c] = [v, d]
@@ -111,9 +115,8 @@ def main():
             print(num, fn, r.get("tests", ""), {c: v[0] for c, v in r.get("verdicts", {}).items()}, r["seconds"])
         sys.stdout.flush()
         if a.out: json.dump(results, open(a.out, "w"), indent=1, sort_keys=True)
-    # leave the generated files as they are for the pristine source
-    if a.mode == "fast":
-        sh("python3-vt -c '%s'" % FAST.replace("'", "'\"'\"'"), cwd=verif, env=env)
+    # leave every generated fragment (gen/Src*.v, gen/GuardTable.v, ..) as it is for the pristine source
+    sh("python3-vt -c 'import sys; sys.path.insert(0, \"driver\"); import translate; translate.regenerate_all()'", cwd=verif, env=env)
 
 if __name__ == "__main__":
     main()
